@@ -2,11 +2,11 @@ CONSTANTS
   NameSeq <- N2
   Slots = {1, 2}
   MaxNodes = 8
-  MaxDepth = 5
+  MaxDepth = 4
   Entries <- Protected
   RetryProtected = TRUE
 INIT Init
-NEXT Next
+NEXT NextB
 CONSTRAINT Bound
 INVARIANT InvOK
 INVARIANT InvCanonical
